@@ -119,7 +119,8 @@ func forms(ops []operand, binops []string, f func(name string, s T)) {
 	}
 	small := []operand{}
 	for _, o := range ops {
-		if strings.HasPrefix(o.Name, "int:") || o.Name == "int0:const" || o.Name == "nil:global" || o.Name == "arr:const" {
+		switch o.Name {
+		case "int:const", "int0:const", "int:temp", "int:call", "int:local", "nil:global", "arr:const":
 			small = append(small, o)
 		}
 	}
@@ -137,7 +138,7 @@ func secondDef() T { return Asg("second", Fn(Ps("a", "b"), N("b"))) }
 func c01Run(w *core.W) {
 	impl.Init()
 	full := w.Thorough()
-	binops := repBinOps
+	binops := []string{"+", "-", "/", "%", "<", "==", "&&", "<<"} // one operator per opcode family and code-generation case
 	if full {
 		binops = allBinOps
 	}
@@ -149,6 +150,10 @@ func c01Run(w *core.W) {
 	}
 	defer flushOpcodes(w)
 
+	w.Family("F0-by-size")
+	if !c01BySize(w, emit) {
+		return
+	}
 	// F1a: operand-source product in every statement context
 	w.Family("F1-operand-x-stmt-context")
 	for _, sc := range stmtContexts() {
@@ -177,7 +182,11 @@ func c01Run(w *core.W) {
 			}
 			ops := operands(scope, full)
 			ok := true
-			forms(ops, binops, func(name string, s T) {
+			bo := binops
+			if !full {
+				bo = []string{"+", "-", "/", "<", "&&"} // quick: one operator per code path (INC/concat, operand order, zero check, relational, logic)
+			}
+			forms(ops, bo, func(name string, s T) {
 				if !ok {
 					return
 				}
@@ -196,6 +205,28 @@ func c01Run(w *core.W) {
 			}
 		}
 	}
+}
+
+// c01BySize: every statement of at most n nodes over a reduced alphabet, at top level and as a function body.
+func c01BySize(w *core.W, emit func([]T) bool) bool {
+	g := &Grammar{
+		Leaves: []T{I(1), I(2), F(1.5), B(true), S("ab"), L(I(1), I(2)), N("gi"), N("u"), N("x")},
+		BinOps: []string{"+", "-", "/", "%", "<", "==", "&"}, UnOps: allUnOps, Calls: []string{"id"}, Names: []string{"x"},
+		Index: true, Lists: true, Stmts: true,
+	}
+	maxN := 4
+	if w.Thorough() {
+		maxN = 5
+	}
+	for n := 1; n <= maxN; n++ {
+		ok := g.EachStmt(n, func(s T) bool {
+			return emit([]T{s}) && emit([]T{Asg("h", Fn(Ps("x"), s)), Call("h", I(2))}) && emit([]T{Asg("h", Fn(Ps("x"), Blk(s, N("x")))), Call("h", I(2))})
+		})
+		if !ok {
+			return false
+		}
+	}
+	return true
 }
 
 func isExprForm(name string) bool {
